@@ -259,9 +259,8 @@ func c15(e *Env) {
 			e.constructorFresh(l, "constructor-fresh")
 		}
 	}
-	for _, p := range e.F.Problems {
-		c.Fail("table-model", "package-level tables", "", p)
-	}
+	// the data tables the leaf summaries read (a nil or run-time-filled table makes results history dependent)
+	e.tableModelProblems(func(t *facts.Table) bool { return t.IsData() })
 	c.Floor("pure-query", 250)
 	c.Floor("table-immutability", 120)
 	c.Floor("determinism", 50)
